@@ -221,3 +221,227 @@ Proof.
     { unfold to_u32. rewrite Z.mod_small by lia. lia. }
     rewrite Hu. rewrite !blen_app, !blen_be, blen_zeros. reflexivity.
 Qed.
+
+(* ------------------------------------------------------------------ *)
+(* schema conditions (computable on the instance) and well-formed values *)
+(* ------------------------------------------------------------------ *)
+Definition on_wire (a : fattr) : bool := negb ((fa_tag a =? ANY_TAG) || fa_skip a).
+
+Fixpoint all_tags (fl : flist) : list N :=
+  match fl with FNil => [] | FCons a _ r => fa_tag a :: all_tags r end.
+
+Fixpoint fl_app (a b : flist) : flist :=
+  match a with FNil => b | FCons x s r => FCons x s (fl_app r b) end.
+Fixpoint vl_app (a b : vlist) : vlist :=
+  match a with VNone => b | VCons x r => VCons x (vl_app r b) end.
+Fixpoint fl_len (fl : flist) : nat := match fl with FNil => O | FCons _ _ r => S (fl_len r) end.
+
+Fixpoint fl_nth (fl : flist) (i : nat) : option (fattr * sch) :=
+  match fl, i with
+  | FNil, _ => None
+  | FCons a s _, O => Some (a, s)
+  | FCons _ _ r, S j => fl_nth r j
+  end.
+
+Fixpoint lookup_case (cs : dcases) (key : val) : option sch :=
+  match cs with
+  | DNil => None
+  | DCase k s r => if key_matches k key then Some s else lookup_case r key
+  end.
+
+(* a discriminating sibling: an Enumeration or Text String field that is always what was written *)
+Definition key_field (x : option (fattr * sch)) : Prop :=
+  match x with
+  | Some (a, SPrim k) => (k = KEnum \/ k = KStr) /\ fa_slice a = false /\ on_wire a = true
+  | _ => False
+  end.
+
+Section WF.
+  Variable T : tyenv.
+
+  (* per-field conditions: [pfl] = the fields declared before this one *)
+  Fixpoint sch_ok (s : sch) : Prop :=
+    match s with
+    | SPrim _ => True
+    | SStruct _ fl => fl_ok FNil fl
+    | SDyn _ _ cs => cases_ok cs
+    end
+  with fl_ok (pfl fl : flist) : Prop :=
+    match fl with
+    | FNil => True
+    | FCons a s r =>
+        ((fa_tag a = ANY_TAG /\ fa_skip a = true /\ fa_req a = false /\ r = FNil) \/
+         (tag_ok (fa_tag a) /\ ~ In (fa_tag a) (all_tags r) /\ (fa_skip a = true -> fa_req a = false))) /\
+        (match s with
+         | SDyn _ ki _ => fa_slice a = false /\ key_field (fl_nth pfl ki)
+         | _ => True
+         end) /\
+        sch_ok s /\ fl_ok (fl_app pfl (FCons a s FNil)) r
+    end
+  with cases_ok (cs : dcases) : Prop :=
+    match cs with
+    | DNil => True
+    | DCase _ s r =>
+        match s with
+        | SPrim _ => True
+        | SStruct ty fl => (exists tag, T ty = Some (tag, fl)) /\ fl_ok FNil fl
+        | SDyn _ _ _ => False
+        end /\ cases_ok r
+    end.
+
+  Definition env_ok : Prop := forall ty tag fl, T ty = Some (tag, fl) -> fl_ok FNil fl.
+
+  Definition key_of (s : sch) (prev : vlist) : val :=
+    match s with SDyn _ ki _ => vl_nth ki prev | _ => VNil end.
+
+  (* well-formed KMIP message values: typed per schema, dynamic payloads agreeing with the dispatch
+     table applied to the discriminating sibling, required sequences non-empty, sizes below 2^32 *)
+  Fixpoint wf (s : sch) (key : val) (v : val) {struct v} : Prop :=
+    match s with
+    | SPrim k => wf_prim k v
+    | SStruct ty fl =>
+        match v with
+        | VStruct ty' vs =>
+            ty' = ty /\ wf_fields fl VNone vs /\
+            exists body, enc_fields T fl vs = Some body /\ blen body < 2 ^ 32
+        | _ => False
+        end
+    | SDyn _ _ cs =>
+        match v with
+        | VNil => True                     (* an absent optional payload *)
+        | VStruct ty vs | VPtr (VStruct ty vs) =>
+            exists tag fl, T ty = Some (tag, fl) /\ lookup_case cs key = Some (SStruct ty fl) /\
+                           wf_fields fl VNone vs /\
+                           exists body, enc_fields T fl vs = Some body /\ blen body < 2 ^ 32
+        | VInt _ => lookup_case cs key = Some (SPrim KInt) /\ wf_prim KInt v
+        | VLong _ => lookup_case cs key = Some (SPrim KLong) /\ wf_prim KLong v
+        | VEnum _ => lookup_case cs key = Some (SPrim KEnum) /\ wf_prim KEnum v
+        | VBool _ => lookup_case cs key = Some (SPrim KBool) /\ wf_prim KBool v
+        | VBytes _ => lookup_case cs key = Some (SPrim KBytes) /\ wf_prim KBytes v
+        | VStr _ => lookup_case cs key = Some (SPrim KStr) /\ wf_prim KStr v
+        | VTime _ => lookup_case cs key = Some (SPrim KTime) /\ wf_prim KTime v
+        | VDur _ => lookup_case cs key = Some (SPrim KDur) /\ wf_prim KDur v
+        | _ => False
+        end
+    end
+  with wf_fields (fl : flist) (prev : vlist) (vs : vlist) {struct vs} : Prop :=
+    match fl, vs with
+    | FNil, VNone => True
+    | FCons a s r, VCons v vr =>
+        (if on_wire a then
+           if fa_slice a then
+             match v with
+             | VList es => wf_elems s es /\ (fa_req a = true -> es <> VNone)
+             | _ => False
+             end
+           else wf s (key_of s prev) v
+         else True) /\
+        wf_fields r (vl_snoc prev v) vr
+    | _, _ => False
+    end
+  with wf_elems (s : sch) (es : vlist) {struct es} : Prop :=
+    match es with
+    | VNone => True
+    | VCons e er => wf s VNil e /\ wf_elems s er
+    end.
+
+  (* Decode(Encode v): what the top-level hypothesis of C01 says about a message value *)
+  Definition wf_top (ty : string) (v : val) : Prop :=
+    exists tag fl, T ty = Some (tag, fl) /\ wf (SStruct ty fl) VNil v.
+End WF.
+
+(* ------------------------------------------------------------------ *)
+(* shapes of encodings                                                 *)
+(* ------------------------------------------------------------------ *)
+Lemma header_blen tag typ len : blen (header tag typ len) = 8.
+Proof. unfold header. rewrite !blen_app, !blen_be. reflexivity. Qed.
+
+Lemma enc_prim_starts tag k v b : enc_prim tag k v = Some b -> exists b', b = be 3 tag ++ b' /\ 5 <= blen b'.
+Proof.
+  unfold enc_prim. destruct k, v; try discriminate; intros H; injection H as <-; unfold header;
+    rewrite <- !app_assoc; eexists; (split; [reflexivity|]); rewrite !blen_app, !blen_be; lia.
+Qed.
+
+Lemma enc_dyn_prim_starts tag v b : enc_dyn_prim tag v = Some b -> exists b', b = be 3 tag ++ b' /\ 5 <= blen b'.
+Proof. unfold enc_dyn_prim. destruct v; try discriminate; apply enc_prim_starts. Qed.
+
+Lemma wrap_starts tag body : exists b', wrap tag body = be 3 tag ++ b' /\ 5 <= blen b'.
+Proof. unfold wrap, header. rewrite <- !app_assoc. eexists; split; [reflexivity|]. rewrite !blen_app, !blen_be. lia. Qed.
+
+Lemma enc_value_prim T k tag v : enc_value T (SPrim k) tag v = enc_prim tag k v.
+Proof. destruct v; reflexivity. Qed.
+
+Lemma enc_value_starts T s tag v b : enc_value T s tag v = Some b -> exists b', b = be 3 tag ++ b' /\ 5 <= blen b'.
+Proof.
+  destruct s as [k|ty fl|h ki cs].
+  - rewrite enc_value_prim. apply enc_prim_starts.
+  - destruct v; cbn [enc_value]; try discriminate. destruct (enc_fields T fl fs); cbn [obind]; [|discriminate].
+    intros H; injection H as <-. apply wrap_starts.
+  - destruct v; cbn [enc_value]; try discriminate; try apply enc_dyn_prim_starts.
+    + destruct (T ty) as [d|]; cbn [obind]; [|discriminate]. destruct (enc_fields T (snd d) fs); cbn [obind]; [|discriminate].
+      intros H; injection H as <-. apply wrap_starts.
+    + destruct v; try discriminate; try apply enc_dyn_prim_starts.
+      destruct (T ty) as [d|]; cbn [obind]; [|discriminate]. destruct (enc_fields T (snd d) fs); cbn [obind]; [|discriminate].
+      intros H; injection H as <-. apply wrap_starts.
+Qed.
+
+Lemma enc_elems_starts T s tag es b : enc_elems T s tag es = Some b ->
+  (es = VNone /\ b = []) \/ (es <> VNone /\ exists b', b = be 3 tag ++ b').
+Proof.
+  destruct es as [|e er]; cbn [enc_elems].
+  - intros H; injection H as <-. left; auto.
+  - destruct (enc_value T s tag e) as [b1|] eqn:E; cbn [obind]; [|discriminate].
+    destruct (enc_elems T s tag er) as [b2|]; cbn [obind]; [|discriminate].
+    intros H; injection H as <-. right. split; [discriminate|].
+    destruct (enc_value_starts _ _ _ _ _ E) as [b' [-> _]]. rewrite <- app_assoc. eauto.
+Qed.
+
+(* the first item of an encoded field list carries the tag of one of the fields *)
+Lemma enc_fields_first T : forall vs fl body, enc_fields T fl vs = Some body ->
+  body = [] \/ exists t b', body = be 3 t ++ b' /\ In t (all_tags fl) /\ t <> ANY_TAG.
+Proof.
+  induction vs as [|v vr IH]; intros fl body H; destruct fl as [|a s r]; cbn [enc_fields] in H; try discriminate.
+  - injection H as <-. left; reflexivity.
+  - destruct ((fa_tag a =? ANY_TAG) || fa_skip a) eqn:Esk.
+    { destruct (IH _ _ H) as [->|[t [b' [-> [Hin Hne]]]]]; [left; reflexivity|]. right. exists t, b'. cbn; auto. }
+    assert (Hne: fa_tag a <> ANY_TAG).
+    { apply orb_false_iff in Esk. destruct Esk as [E _]. apply N.eqb_neq in E. exact E. }
+    destruct (fa_slice a).
+    { destruct v; try discriminate.
+      destruct (enc_elems T s (fa_tag a) vs) as [b1|] eqn:E1; cbn [obind] in H; [|discriminate].
+      destruct (enc_fields T r vr) as [b2|] eqn:E2; cbn [obind] in H; [|discriminate]. injection H as <-.
+      destruct (enc_elems_starts _ _ _ _ _ E1) as [[_ ->]|[_ [b' ->]]].
+      - cbn [app]. destruct (IH _ _ E2) as [->|[t [b' [-> [Hin Hn]]]]]; [left; reflexivity|]. right. exists t, b'. cbn; auto.
+      - right. exists (fa_tag a), (b' ++ b2). rewrite <- app_assoc. cbn; auto. }
+    destruct (negb (fa_req a) && is_zero s v).
+    { destruct (IH _ _ H) as [->|[t [b' [-> [Hin Hn]]]]]; [left; reflexivity|]. right. exists t, b'. cbn; auto. }
+    destruct (enc_value T s (fa_tag a) v) as [b1|] eqn:E1; cbn [obind] in H; [|discriminate].
+    destruct (enc_fields T r vr) as [b2|] eqn:E2; cbn [obind] in H; [|discriminate]. injection H as <-.
+    destruct (enc_value_starts _ _ _ _ _ E1) as [b' [-> _]]. right. exists (fa_tag a), (b' ++ b2).
+    rewrite <- app_assoc. cbn; auto.
+Qed.
+
+Lemma dec_cases_lookup cs key a st :
+  dec_cases cs key a st = match lookup_case cs key with Some s => dec_value s a st VNone | None => Err end.
+Proof. induction cs as [|k s r IH]; cbn [dec_cases lookup_case]; [reflexivity|]. destruct (key_matches k key); auto. Qed.
+
+(* ------------------------------------------------------------------ *)
+(* vlist / flist bookkeeping                                           *)
+(* ------------------------------------------------------------------ *)
+Lemma vl_set_app_len p x y q : vl_set (vl_length p) x (vl_app p (VCons y q)) = vl_app p (VCons x q).
+Proof. induction p as [|z r IH]; cbn; [reflexivity|]. rewrite IH. reflexivity. Qed.
+
+Lemma vl_nth_app_lt p q i : (i < vl_length p)%nat -> vl_nth i (vl_app p q) = vl_nth i p.
+Proof. revert i; induction p as [|z r IH]; intros i H; cbn in *; [lia|]. destruct i; [reflexivity|]. apply IH. lia. Qed.
+
+Lemma vl_app_snoc p x q : vl_app (vl_snoc p x) q = vl_app p (VCons x q).
+Proof. induction p as [|z r IH]; cbn; [reflexivity|]. rewrite IH. reflexivity. Qed.
+
+Lemma vl_length_snoc p x : vl_length (vl_snoc p x) = S (vl_length p).
+Proof. induction p as [|z r IH]; cbn; [reflexivity|]. rewrite IH. reflexivity. Qed.
+
+Lemma fl_len_app a b : fl_len (fl_app a b) = (fl_len a + fl_len b)%nat.
+Proof. induction a as [|x s r IH]; cbn; [reflexivity|]. rewrite IH. reflexivity. Qed.
+
+Lemma vl_app_nil p : vl_app p VNone = p.
+Proof. induction p as [|z r IH]; cbn; [reflexivity|]. rewrite IH. reflexivity. Qed.
